@@ -412,6 +412,17 @@ theorem compressed_run_rfc5952 (a : Buf) (h : WFB 16 a) :
   obtain ⟨b0, b1, b2, b3, b4, b5, b6, b7, b8, b9, b10, b11, b12, b13, b14, b15, rfl⟩ := list16 a h.1
   exact bestRun_rfc5952 _ rfl
 
+/-- what "canonical" says about one group (RFC 5952 §4.1 no leading zeros, §4.3 lower case), read off the
+    specification: one to four characters from `0-9a-f`, a leading '0' only in the text "0", and the text denotes the
+    group's value -/
+theorem group_text_rfc5952 (v : Nat) (h : v < 65536) :
+    1 ≤ (Spec.hexNumeral v).length ∧ (Spec.hexNumeral v).length ≤ 4 ∧
+    (∀ c ∈ Spec.hexNumeral v, (48 ≤ c ∧ c ≤ 57) ∨ (97 ≤ c ∧ c ≤ 102)) ∧
+    ((Spec.hexNumeral v).head? = some 48 → Spec.hexNumeral v = [48]) ∧ Spec.groupVal (Spec.hexNumeral v) = v :=
+  hexNumeral_form v h
+
+example : Spec.hexNumeral 0x0a0 = [97, 48] ∧ Spec.hexNumeral 0 = [48] := by decide
+
 /-- a buffer that is exactly as long as the longest text (39) is one byte short: the terminating NUL is counted -/
 example : V6.toStringSized 39 (List.replicate 16 255) = none ∧
     (V6.toStringSized 40 (List.replicate 16 255)).isSome = true := by decide
